@@ -347,6 +347,21 @@ prop("C18",
               "formatter / input-parser round trip is string and floating-point code; the call of parse_boolean / get_error_by_name inside set_user_input (position in the cascade)")
 
 
+prop("C24",
+     units=["xmlescape"],
+     level="proof",
+     claim="slice (export side, text escaping): needs_xlsx_escape(c) holds for exactly the characters that are NOT an XML 1.0 `Char` (production [2] of the recommendation, written "
+           "out as the spec xml10_char — not the code's table); escape_char sends the five markup characters and CR / LF to entities; and the whole slow-path loop of escape_xml, "
+           "verbatim, writes for ANY text only XML characters and never a raw '<' — so what the exporter passes through escape_xml (cell texts, formulas, sheet and defined names, "
+           "format codes, link targets) can be read back by an XML parser",
+     assumptions=["units/std_text.rs boundary predicate; `s[i..].chars().next().unwrap()` at a boundary i < len is read as a shim returning the character there and the next "
+                  "boundary (std: UTF-8 decoding); format!(\"_x{:04X}_\", cp) is read as a shim producing printable ASCII; the borrowed fast path (no escaping needed) is not "
+                  "under contract (it returns the text itself when its `any` test finds nothing, closure code)"],
+     residual="everything else in C24: that every user text reaches escape_xml, the decoding on import (decode_xlsx_escapes, reviewed in scan import-panicking-ops only), styles, "
+              "rows / columns / views, defined names, conditional formats, the zip container — export and import are format!-built XML and iterator glue; the round trip as a whole "
+              "was only probed (tools/import_probe-style tests), which found five losses that were repaired (known_findings.txt)")
+
+
 def evidence(pid, tier, seed, results, scan_results, kani_results, violations, known_hits, undecided, wall):
     P = PROPS[pid]
     obligations = 0
